@@ -25,7 +25,8 @@ def _rel_mem(pid, contract, ob):
     """Which obligations of the InMemoryStorage contracts are reported under which property."""
     kind, name, clause = ob["kind"], ob["name"], str(ob.get("clause") or "")
     if kind == "guarded-by":
-        return pid == "C03"
+        # an unguarded access to the best-trial cache also breaks C12 (lost update under concurrency)
+        return pid == "C03" or (pid == "C12" and (ob.get("info") or {}).get("field") == "best_trial_id")
     if pid == "C03":
         return False
     is_r5 = "R5(" in clause or "get_best_trial" in name or "better(" in clause
@@ -126,4 +127,24 @@ PROPS["C10"] = dict(
     assumptions=_NUM_ASSUME,
     not_covered=["TPE/GP/NSGA/QMC samplers' sampling code (numpy)", "Trial._suggest glue (pending)",
                  "log-float lower bound (exp(log(low)) may undershoot by a few ulps: allowed by the statement)"],
+)
+
+PROPS["C19"] = dict(
+    modules=["contracts.heartbeat"],
+    claim="fail_stale_trials: for every trial the failure callback runs at most once per sweep, and only for a trial "
+          "that THIS call moved from an unfinished state to FAIL (its compare-and-set returned True); finished trials "
+          "are never touched; ids are collected without duplicates (loop invariants, all iterations). "
+          "RetryFailedTrialCallback: enqueues exactly when max_retry is None or len(history)+1 <= max_retry; the "
+          "WAITING retry carries the failed trial's params/distributions/user attrs, retry_history = history ++ "
+          "[number], failed_trial = first number of the chain. All obligations discharged by z3.",
+    note="storage behind the assumed BaseStorage/heartbeat interface (SQL stale-id query and SQL compare-and-set "
+         "assumed); at most one winner per trial across workers follows from the CAS contract plus atomicity",
+    assumptions=LIB_ASSUMPTIONS + [
+        "RDBStorage._get_stale_trial_ids returns ids of RUNNING trials with an expired heartbeat (SQL, assumed)",
+        "RDBStorage.set_trial_state_values implements the AS compare-and-set contract (assumed; proved for in-memory)",
+        "create_trial / Study.add_trial build and store the trial they are given (assumed contracts)",
+        "the failure callback may enqueue trials and raise, but does not change states of existing trials",
+    ],
+    not_covered=["worker death in the middle of the sweep", "the stale-id SQL query and DB clock",
+                 "interleavings of several sweeping workers (reduced to the CAS contract)"],
 )
